@@ -35,6 +35,7 @@ type Global struct {
 	allPkgs   map[string]*types.Package // every loaded package by name (first wins) and by path
 	repoDir   string
 	fnIDs     map[*ssa.Function]int
+	knownOpen map[string]bool // obligation names (without @ordinal) listed as open known findings
 }
 
 var modulePatterns = []string{".", "./internal/quicvarint", "./internal/helper", "./dicttls"}
@@ -96,6 +97,16 @@ func LoadGlobal(repoDir string, overlay map[string][]byte) (*Global, error) {
 		g.funcs[k] = fn
 	}
 	// contracts
+	g.knownOpen = map[string]bool{}
+	vdir := os.Getenv("VERIF_DIR")
+	if vdir == "" {
+		vdir = "/verif"
+	}
+	for _, kf := range loadKnownFindings(vdir) {
+		if kf.Status == "open" {
+			g.knownOpen[kf.Obligation] = true
+		}
+	}
 	g.contracts = NewContractSet()
 	for _, p := range pkgs {
 		dir := repoDir
